@@ -19,6 +19,7 @@ CONSTANTS Keys,    \* set of key codes
           Other,   \* {} or {code}: an extra (non-chord or foreign) key pressed once somewhere in the press phase
           MinSize, \* only subsets with at least this many keys
           AllRel,  \* TRUE: every release order; FALSE: only the press order and its reverse
+          Pre, Post, \* steps put before / after every schedule (e.g. hold a layer key first, release it at the end)
           TailT     \* ticks appended at the end
 
 Perms(S) == {f \in [1..Cardinality(S) -> S] : \A i, j \in DOMAIN f : i # j => f[i] # f[j]}
@@ -44,9 +45,9 @@ Tk(n) == IF n > 0 THEN <<<<"t", n>>>> ELSE <<>>
 ASSUME \A po \in UNION {Perms(S) : S \in {X \in SUBSET Keys : Cardinality(X) >= MinSize}} :
          \A g \in GapVecs(Len(po), Gaps) : \A h \in Hold : \A ro \in RelOrders(po) :
            \A rg \in GapVecs(Len(po), RGaps) :
-             /\ PrintT(<<"SCHED", ToJson(Inter("d", po, g, 1) \o Tk(h) \o Inter("u", ro, rg, 1) \o Tk(TailT))>>)
+             /\ PrintT(<<"SCHED", ToJson(Pre \o Inter("d", po, g, 1) \o Tk(h) \o Inter("u", ro, rg, 1) \o Post \o Tk(TailT))>>)
              /\ \A o \in Other : \A pos \in 1..(Len(po) + 1) :
-                  PrintT(<<"SCHED", ToJson(InterO(po, g, 1, pos, o) \o Tk(h) \o Inter("u", ro, rg, 1) \o Tk(TailT))>>)
+                  PrintT(<<"SCHED", ToJson(Pre \o InterO(po, g, 1, pos, o) \o Tk(h) \o Inter("u", ro, rg, 1) \o Post \o Tk(TailT))>>)
 
 VARIABLE x
 Init == x = 0
